@@ -108,6 +108,30 @@ def ref_tokens(text, state, last, cdata, compat=frozenset(), transitions=None):
     return toks
 
 
+class _ShortReads(object):
+    def __init__(self, text, reads):
+        self.text, self.reads, self.pos, self.k = text, reads, 0, 0
+
+    def read(self, n=-1):
+        if n == 0:
+            return ""
+        if n is None or n < 0:
+            n = len(self.text)
+        m = max(1, min(n, self.reads[self.k % len(self.reads)]))
+        self.k += 1
+        out = self.text[self.pos:self.pos + m]
+        self.pos += len(out)
+        return out
+
+
+def _entity_atoms():
+    """every name of the standard's table and every ';'-less stem that is not itself in the table (those must stay literal)"""
+    from html.entities import html5
+    names = sorted(html5)
+    stems = sorted(set(n[:-1] for n in names if n.endswith(";")) - set(names))
+    return names + stems
+
+
 def check_case(case, want_transitions=None):
     text, state, last, cdata = case["text"], case["state"], case.get("last"), bool(case.get("cdata"))
     tr = [] if want_transitions is not None else None
@@ -116,7 +140,11 @@ def check_case(case, want_transitions=None):
         want_transitions.append(tr[0])
     nontrivial = not (len(want) <= 2 and (len(want) == 1 or want[0][0] == "chars"))
     try:
-        got = h5.tokenize(text, state, last, cdata)
+        src = text
+        if case.get("reads"):
+            # the same characters through a text stream that returns short reads (the tokenizer must not care how its input arrives)
+            src = _ShortReads(text, case["reads"])
+        got = h5.tokenize(src, state, last, cdata)
     except Exception as e:
         return Verdict("fail", "html5lib tokenizer raised %r on %s" % (e, short(text)), "exception:" + type(e).__name__,
                        nontrivial=nontrivial)
@@ -235,13 +263,19 @@ def run_shard(desc, seed, tier):
                 n += 1
         acc.extra["prefix_suffix_cases"] = n
     else:
+        ents = _entity_atoms()
+        ent_text = st.lists(st.one_of(st.tuples(st.sampled_from(ents), st.sampled_from(["", ";", "=", "a", "1", " ", "<", "&", "\"", "x;"])).map(lambda t: "&" + t[0] + t[1]),
+                                      st.sampled_from(["<a b=", "<a b='", "'>", ">", "x", " ", "<p title=\""])), min_size=1, max_size=6).map("".join)
         strat = st.tuples(st.one_of(soup.soup_text(max_items=25).map(lambda t: t[1]), st.text(max_size=30),
-                                    st.lists(st.sampled_from(ALPHA), max_size=12).map("".join)),
-                          _cfg_strategy())
+                                    st.lists(st.sampled_from(ALPHA), max_size=12).map("".join), ent_text),
+                          _cfg_strategy(), st.one_of(st.none(), st.none(), st.lists(st.integers(1, 7), min_size=1, max_size=6)))
 
         def fn(x):
-            text, (state, last, cdata) = x
-            one({"text": text, "state": state, "last": last, "cdata": cdata})
+            text, (state, last, cdata), reads = x
+            case = {"text": text, "state": state, "last": last, "cdata": cdata}
+            if reads:
+                case["reads"] = reads
+            one(case)
         drive(strat, fn, desc["n"], seed)
         acc.extra["hypothesis_examples"] = acc.evaluations
     acc.extra["ref_transitions"] = trans
